@@ -39,6 +39,8 @@ def run_scenario(scn, strat, hooks=None, trace=False, pilot=False, wall_timeout=
               infinite_poll=infinite_poll, record_pilot=pilot, sndbuf=scn.get("sndbuf", 65536), trace=trace,
               step_limit=scn.get("step_limit", 400000))
     w.net.faults.update({_fkey(k): v for k, v in (scn.get("faults") or {}).items()})
+    if scn.get("peer_family"):
+        w.net.peer_family = scn["peer_family"]
     holder["app"] = SC.make_app(w, log, hooks)
     results = []
     for i, cs in enumerate(scn["conns"]):
